@@ -112,7 +112,14 @@ func (v *Vue) evaluate(ctx VueContext, nodes []*html.Node, depth int) ([]*html.N
 
 			// Handle template elements (without v-if/v-for, those are handled above)
 			if tag == "template" {
-				evaluated, err := v.evalTemplate(ctx, []*html.Node{node}, ctx.stack.EnvMap(), depth+1)
+				// evalTemplate rewrites the tag's attributes (evaluated props of an
+				// include, the internal v-html content attribute). It gets a copy of
+				// the tag, sharing the children, because the same source node can be
+				// evaluated more than once - slot content is filled once per
+				// iteration of a loop in the component.
+				tplNode := helpers.ShallowCloneWithAttrs(node)
+				tplNode.FirstChild, tplNode.LastChild = node.FirstChild, node.LastChild
+				evaluated, err := v.evalTemplate(ctx, []*html.Node{tplNode}, ctx.stack.EnvMap(), depth+1)
 				if err != nil {
 					return nil, err
 				}
